@@ -29,6 +29,7 @@ From Coq Require Import NArith List Bool Permutation.
 From DvcData Require Import Base.Val Base.MD5 Base.Json Model.Listing Model.HashSched.
 From DvcData Require Import Proofs.ListingSort Proofs.ListingProofs Proofs.JsonProofs Proofs.ListingInj Proofs.HashSchedProofs.
 From DvcData Require Import Model.ListingHist Proofs.ListingHistProofs Model.HashSchedPath Proofs.HashSchedPathProofs.
+From DvcData Require Import Gen.Tree Proofs.ListingGenTie.
 Import ListNotations.
 Open Scope N_scope.
 
@@ -215,3 +216,52 @@ Theorem C03_digest_with_meta_flag : forall b t oid content,
   digest_obj b t = Some (oid, content) -> oid = digest t.
 Proof. exact digest_obj_oid. Qed.
 Print Assumptions C03_digest_with_meta_flag.
+
+(* ---- the model equals what the translator regenerates from hashfile/tree.py (Gen/Tree.v) ----
+   translator/treeunit.py checks the statement shapes of Tree.add / __iter__ / as_list / as_bytes /
+   digest / from_list fail-closed and emits their decisions; these theorems tie Model/Listing.v to
+   them, and restate the property over the generated functions. *)
+Theorem C03_gen_add : forall k m h t,
+  g_add k m h t = add {| e_key := k; e_meta := m; e_hash := h |} t /\ g_add_drops_trie = true.
+Proof. intros. split; [apply tie_add | apply tie_add_drops_trie]. Qed.
+Print Assumptions C03_gen_add.
+
+Theorem C03_gen_as_bytes : forall b t, as_bytes b t = g_as_bytes b t.
+Proof. exact tie_as_bytes. Qed.
+Print Assumptions C03_gen_as_bytes.
+
+Theorem C03_gen_digest : forall b t, g_digest b t = digest t.
+Proof. exact tie_digest. Qed.
+Print Assumptions C03_gen_digest.
+
+Theorem C03_gen_from_bytes : forall hn raw, hn <> Some [] -> from_bytes hn raw = g_from_bytes hn raw.
+Proof. exact tie_from_bytes. Qed.
+Print Assumptions C03_gen_from_bytes.
+
+Theorem C03_gen_canonical : forall t t',
+  NoDupRelpaths t -> Permutation (map obs t) (map obs t') -> g_as_bytes false t = g_as_bytes false t'.
+Proof. exact gen_canonical. Qed.
+Print Assumptions C03_gen_canonical.
+
+Theorem C03_gen_perm : forall b t t',
+  KeysOk t -> NoDupKeys t -> Permutation t t' ->
+  g_as_bytes b t = g_as_bytes b t' /\ g_digest b t = g_digest b t'.
+Proof. exact gen_perm. Qed.
+Print Assumptions C03_gen_perm.
+
+Theorem C03_gen_meta_blind : forall b b' (f : entry -> option meta) t,
+  g_digest b (map (set_meta f) t) = g_digest b' t.
+Proof. exact gen_meta_blind. Qed.
+Print Assumptions C03_gen_meta_blind.
+
+Theorem C03_gen_inj : forall t t',
+  Wf t -> Wf t' -> g_as_bytes false t = g_as_bytes false t' -> Permutation (map obs t) (map obs t').
+Proof. exact gen_inj. Qed.
+Print Assumptions C03_gen_inj.
+
+Theorem C03_gen_roundtrip : forall t, Wf t -> NoDupKeys t ->
+  exists t', g_from_bytes None (g_as_bytes false t) = FlOk t' /\
+    map obs t' = sorted_obs t /\ Permutation (map obs t') (map obs t) /\
+    g_as_bytes false t' = g_as_bytes false t /\ g_digest false t' = g_digest false t.
+Proof. exact gen_roundtrip. Qed.
+Print Assumptions C03_gen_roundtrip.
